@@ -12,6 +12,7 @@ Inductive ikind :=
 | KInt (w : nat) (e : endian)
 | KBytes
 | KNested (t : ctype)
+| KIntArr (w : nat) (e : endian)
 | KOther.
 
 Record eitem := { ei_stream : stream; ei_field : string; ei_kind : ikind }.
@@ -25,7 +26,7 @@ Fixpoint emitted_of (m : mop) : list eitem :=
   | MBytes s f => [{| ei_stream := s; ei_field := f; ei_kind := KBytes |}]
   | MNested s f t _ => [{| ei_stream := s; ei_field := f; ei_kind := KNested t |}]
   | MLen s f w e => [{| ei_stream := s; ei_field := String.append "len(" (String.append f ")"); ei_kind := KInt w e |}]
-  | MIntArray s f w e => [{| ei_stream := s; ei_field := f; ei_kind := KOther |}]
+  | MIntArray s f w e => [{| ei_stream := s; ei_field := f; ei_kind := KIntArr w e |}]
   | MConst s w e _ => [{| ei_stream := s; ei_field := "<const>"; ei_kind := KInt w e |}]
   | _ => []
   end.
@@ -35,6 +36,7 @@ Fixpoint read_of (u : uop) : option (stream * string * ikind * lenexp) :=
   | UIf _ u' => read_of u'
   | UInt s f w e acc => Some (s, f, KInt w e, acc)
   | UBytes s f e => Some (s, f, KBytes, e)
+  | UIntArr s f w en e => Some (s, f, KIntArr w en, e)
   | UNested s f t e => Some (s, f, KNested t, e)
   | UNested0 s f t => Some (s, f, KNested t, EVar "<whole stream>")
   | _ => None
@@ -74,6 +76,20 @@ Fixpoint ctype_eqb (a b : ctype) : bool :=
   | TArray x, TArray y => ctype_eqb x y
   | TFixedArray n x, TFixedArray m y => Nat.eqb n m && ctype_eqb x y
   | TNamed x, TNamed y => String.eqb x y
+  | _, _ => false
+  end.
+
+Fixpoint lx_eqb (a b : lenexp) : bool :=
+  match a, b with
+  | EConst x, EConst y => N.eqb x y
+  | EField x, EField y => String.eqb x y
+  | ELenOf x, ELenOf y => String.eqb x y
+  | EVar x, EVar y => String.eqb x y
+  | ERead, ERead => true
+  | ERest, ERest => true
+  | EAdd a1 a2, EAdd b1 b2 => lx_eqb a1 b1 && lx_eqb a2 b2
+  | EMul a1 a2, EMul b1 b2 => lx_eqb a1 b1 && lx_eqb a2 b2
+  | ESub a1 a2, ESub b1 b2 => lx_eqb a1 b1 && lx_eqb a2 b2
   | _, _ => false
   end.
 
@@ -153,6 +169,19 @@ Definition compare_item (c : string) (first : bool) (e : eitem) (r : ritem) : li
                              end
         | _ => [key c f "advance-differs"]
         end)
+   | KIntArr w1 e1, KIntArr w2 e2 =>
+       (* the elements of an array, emitted one after the other and read back as one window of whole slots: the
+          guard and the advance must be the window (a conditional block carries its own guard and advance) *)
+       (if Nat.eqb w1 w2 then [] else [key c f "width-differs"]) ++
+       (if endian_eqb e1 e2 then [] else [key c f "endian-differs"]) ++
+       (match ri_guard r with
+        | Some g => if lx_eqb g (ri_access r) then [] else [key c f "guard-too-weak"]
+        | None => [key c f "guard-too-weak"]
+        end) ++
+       (match ri_adv r with
+        | Some a => if lx_eqb a (ri_access r) then [] else [key c f "advance-differs"]
+        | None => [key c f "advance-differs"]
+        end)
    | _, _ => [key c f "kind-differs"]
    end).
 
@@ -179,6 +208,7 @@ Fixpoint emitted_bytes_const (es : list eitem) : option N :=
       match ei_kind e, emitted_bytes_const r with
       | KInt w _, Some n => Some (N.of_nat w + n)%N
       | KNested t, Some n => match nested_size t with Some k => Some (k + n)%N | None => None end
+      | KIntArr w _, Some n => if Nat.even w then Some n else None   (* whole words whatever the count: parity-neutral *)
       | _, _ => None
       end
   end.
@@ -235,6 +265,7 @@ Definition guard_mismatches (c : cmd_desc) : list string :=
     | _, ERest, _ => []
     | _, EConst a, Some (EConst g) => if N.ltb g a then [key n f "guard-too-weak"] else []
     | _, EField l, Some (EField g) => if String.eqb l g then [] else [key n f "guard-too-weak"]
+    | KIntArr _ _, a, Some g => if lx_eqb g a then [] else [key n f "guard-too-weak"]
     | _, _, _ => [key n f "guard-too-weak"]
     end) (reads_of (cd_unmarshal c) None).
 
